@@ -394,3 +394,58 @@ package sqlite
 //@   ensures [C10.sqlite.new.steps] result1 == nil ==> cnt(pragmasCall) == 1 && cnt(newFromDBCall) == 1 && cnt(migrateCall) <= 1 && result0 == lastresi(newFromDBCall, 0) && StmtInv(result0) && result0.cfg.path == path
 //@   at call:migrate assert [C10.sqlite.new.migrate.when] cfg.autoMigrate && cnt(pragmasCall) == 1
 //@   at call:newFromDB assert [C10.sqlite.new.migrate.first] cnt(migrateCall) == ite(cfg.autoMigrate, 1, 0)
+
+// ---------------------------------------------------------------- option literals, Close
+//@ func WithBusyTimeout$1
+//@   props C10
+//@   requires c != nil
+//@   ensures [C10.sqlite.opt.busy] c.busyTimeout == timeout
+//@ func WithAutoMigrate$1
+//@   props C10
+//@   requires c != nil
+//@   ensures [C10.sqlite.opt.migrate] c.autoMigrate == enabled
+//@ func WithLogger$1
+//@   props C10
+//@   requires c != nil
+//@   ensures [C10.sqlite.opt.logger] c.logger == logger
+//@ func WithMetricsHook$1
+//@   props C10
+//@   requires c != nil
+//@   ensures [C10.sqlite.opt.metrics] c.metricsHook == hook
+//@ func WithStreamBatchSize$1
+//@   props C10 C11
+//@   requires c != nil
+//@   ensures [C10.sqlite.opt.batch] c.streamBatchSize == size
+//@ func defaultConfig
+//@   props C10
+//@   ensures [C10.sqlite.defaults] result != nil && fresh(result) && result.autoMigrate && result.streamBatchSize == 0 && result.logger == nil && result.metricsHook == nil
+
+// ---------------------------------------------------------------- option constructors
+// Each returns its option literal (the literal's own contract says what the option does).
+//@ func WithBusyTimeout
+//@   props C10
+//@   ensures [opt.value] result != nil
+//@ func WithAutoMigrate
+//@   props C10
+//@   ensures [opt.value] result != nil
+//@ func WithLogger
+//@   props C10
+//@   ensures [opt.value] result != nil
+//@ func WithMetricsHook
+//@   props C10
+//@   ensures [opt.value] result != nil
+//@ func WithStreamBatchSize
+//@   props C10
+//@   ensures [opt.value] result != nil
+//@ func sql.(*Stmt).Close(stmt)
+//@   trusted
+//@   effect pure
+//@ method Logger.Info(l, msg, args)
+//@   effect reentrant
+//@ event stmtClose := call (*Stmt).Close
+// Close closes the database (once, last) and reports its error
+//@ func (*SQLiteStore).Close
+//@   props C10
+//@   requires s != nil && s.db != nil
+//@   loop 1 invariant [idx] rangeindex < len(stmts) && -1 <= rangeindex && len(stmts) == 5 && cnt(dbClose) == 0
+//@   ensures [C10.sqlite.close] cnt(dbClose) == 1 && lastarg(dbClose, 0) == s.db && result == lastres(dbClose, Iface)
